@@ -182,7 +182,11 @@ Inductive optval :=
 
 Inductive token :=
 | TIdent (s : ident) | TLit (s : list N)      (* identifier; string/number literal text *)
-| TColon | TLBrace | TRBrace | TLBrack | TRBrack | TComma.
+| TColon | TLBrace | TRBrace | TLBrack | TRBrack | TComma
+(* the rest of the file grammar (model/ProtoPrintFile.v): punctuation, and the comments the lexer
+   attaches to the token that follows (detached groups, then the attached leading comment) *)
+| TSemi | TEq | TLParen | TRParen | TLt | TGt | TDot
+| TDetached (c : list N) | TLeading (c : list N).
 
 Definition print_scalar (v : scalar) : token :=
   match v with
